@@ -5,6 +5,7 @@ import Ucan.Model.Meta
 `meta.get <key hex|nil> <stored hex> <open oracle>` -> `err` | `ok <plaintext hex>`
    open oracle: `x` (secretbox.Open refuses) or the plaintext hex, computed by the harness with x/crypto directly
 `meta.len <plaintext length>`                      -> stored length
+`meta.entropy <key hex|nil> <drawn hex>`           -> `err` | `ok <nonce hex>`  (the entropy source delivers exactly these bytes, then fails)
 -/
 namespace Ucan.Driver
 open Ucan.Meta
@@ -27,6 +28,12 @@ def runMeta : List String → Option String
     let o : Option Bytes ← if oracle == "x" then some none else (fromHex oracle).map some
     match getEncrypted (fun _ _ _ => o) k (some (.bytes c)) with
     | .ok m => pure ("ok " ++ toHex m)
+    | .error _ => pure "err"
+  | ["meta.entropy", key, drawn] => do
+    let k ← keyOf key
+    let d ← fromHex drawn
+    match encryptDrawing (fun _ _ _ => []) k (some d) [] with
+    | .ok c => pure ("ok " ++ toHex (c.take nonceSize))
     | .error _ => pure "err"
   | ["meta.len", n] => do
     let n ← n.toNat?
